@@ -329,7 +329,22 @@ def duplicate_name(rng, doc):
     if l is None:
         return False
     import copy
-    d = copy.deepcopy(rng.choice(l))
+    src = rng.choice(l)
+    d = copy.deepcopy(src)
+    k = rng.random()
+    if k < 0.35 and isinstance(src, dict) and isinstance(src.get("name"), str) and src["name"].swapcase() != src["name"]:
+        # X, x, X: the two equal names with a case variant of the name BETWEEN them (names are case-sensitive: the
+        # variant is a different, legal name; the repeat is still a repeat).  Only the variant's name changes, so the
+        # document keeps every reference it had.
+        i = l.index(src)
+        v = copy.deepcopy(src)
+        v["name"] = src["name"].swapcase() if rng.random() < 0.5 else (src["name"][0].swapcase() + src["name"][1:])
+        l.insert(i + 1, v)
+        l.insert(i + 2, d)
+        return True
+    if k < 0.5 and isinstance(src, dict) and isinstance(src.get("name"), str) and src["name"].swapcase() != src["name"]:
+        # X, x: NOT a duplicate (kept valid as far as uniqueness goes)
+        d["name"] = src["name"].swapcase()
     l.insert(rng.randint(0, len(l)), d)
     return True
 
